@@ -13,7 +13,7 @@ PROP = {
         "the layers directory is not '/' and is given in its canonical spelling",
         "the clause 'only use of the build, upper or work directory makes the layer un-unmountable' is judged on the command scenarios (suites scn-mount, scn-struct) by the protection oracle shared with C04; its theorems are C04's classify_* and umount_refuses_iff",
     ],
-    "rule": "each case spawns 1-4 helper processes whose cwd / root (chroot) / executable / open files and directories lie at generated places: inside layers with prefix-related names (d1, d1x, d1-2, d1~removed), at several depths, in build / overlayfs/upperdir / packages / buildx, in the layers directory itself, or next to it (layersX); 15% of the helpers are killed between open and readdir of /proc/<pid>/fd. The oracle recomputes the expected attribution from the helper description by splitting the path into components (independent of the code's index arithmetic) and requires the scan to succeed. distinct = distinct case JSON.",
+    "rule": "Helpers may also sit in a directory of their own that is deleted and made anew once they are inside (the specification then expects no working-directory use; the recorded finding deleted-directory-attributed classifies the implementation's answer when it equals what the link text '<path> (deleted)' yields). each case spawns 1-4 helper processes whose cwd / root (chroot) / executable / open files and directories lie at generated places: inside layers with prefix-related names (d1, d1x, d1-2, d1~removed), at several depths, in build / overlayfs/upperdir / packages / buildx, in the layers directory itself, or next to it (layersX); 15% of the helpers are killed between open and readdir of /proc/<pid>/fd. The oracle recomputes the expected attribution from the helper description by splitting the path into components (independent of the code's index arithmetic) and requires the scan to succeed. distinct = distinct case JSON.",
 }
 
 META = {
